@@ -99,8 +99,15 @@ def detect(sdir, props):
         sh("python3 tools/translate.py >/dev/null", cwd="/verif")
     mp = os.path.join(sdir, "meta.json")
     meta = json.load(open(mp)) if os.path.exists(mp) else {}
-    meta["detected_by"] = {p: r for p, r in results.items() if r["exit"] != 0}
-    meta["not_detected_by"] = [p for p, r in results.items() if r["exit"] == 0]
+    # merge with earlier runs (a later run replaces the entry of the properties it ran)
+    det = dict(meta.get("detected_by", {}))
+    nd = set(meta.get("not_detected_by", []))
+    for p, r in results.items():
+        det.pop(p, None); nd.discard(p)
+        if r["exit"] != 0: det[p] = r
+        else: nd.add(p)
+    meta["detected_by"] = det
+    meta["not_detected_by"] = sorted(nd)
     json.dump(meta, open(mp, "w"), indent=1)
     return 0
 
